@@ -15,10 +15,6 @@ theorem nw_fseekFromEnd (off : Nat) : NoWrite (fseekFromEnd off) :=
   NoWrite.bind (NoWrite.tick _) fun _ => by intro e s r s' h; simp only [Prod.mk.injEq] at h; rw [← h.2]
 theorem nw_fseekRel (k : Int) : NoWrite (fseekRel k) := by
   intro e s r s' h; exact NoWrite.fseek _ e s r s' h
-theorem nw_freadInt (n : Int) : NoWrite (freadInt n) := by
-  intro e s r s' h
-  unfold freadInt at h
-  split at h <;> exact NoWrite.fread _ e s r s' h
 
 theorem NoWrite.tryFinally {body : FileM α} {fin : FileM Unit} (hb : NoWrite body) (hf : NoWrite fin) :
     NoWrite (tryFinally body fin) := by
@@ -114,11 +110,13 @@ theorem nw_locateTagM : NoWrite locateTagM := by
       · exact NoWrite.raise _
       · split
         · exact NoWrite.raise _
-        · apply NoWrite.bind (NoWrite.fseek _); intro _
-          apply NoWrite.bind (nw_fixBrokenM _ _); intro start
-          apply NoWrite.bind (NoWrite.fseek _); intro _
-          apply NoWrite.bind (nw_freadInt _); intro _
-          exact NoWrite.pure _
+        · split
+          · exact NoWrite.raise _
+          · apply NoWrite.bind (NoWrite.fseek _); intro _
+            apply NoWrite.bind (nw_fixBrokenM _ _); intro start
+            apply NoWrite.bind (NoWrite.fseek _); intro _
+            apply NoWrite.bind (NoWrite.fread _); intro _
+            exact NoWrite.pure _
   · apply NoWrite.bind (NoWrite.fseek _); intro _
     apply NoWrite.bind (NoWrite.fread _); intro d
     split
@@ -129,10 +127,12 @@ theorem nw_locateTagM : NoWrite locateTagM := by
       · exact NoWrite.raise _
       · apply NoWrite.bind (NoWrite.fseek _); intro _
         apply NoWrite.bind nw_readIsApe; intro hasFooter
-        apply NoWrite.bind (NoWrite.fseek _); intro _
-        apply NoWrite.bind (NoWrite.fseek _); intro _
-        apply NoWrite.bind (nw_freadInt _); intro _
-        exact NoWrite.pure _
+        split
+        · exact NoWrite.raise _
+        · apply NoWrite.bind (NoWrite.fseek _); intro _
+          apply NoWrite.bind (NoWrite.fseek _); intro _
+          apply NoWrite.bind (NoWrite.fread _); intro _
+          exact NoWrite.pure _
 
 theorem nw_verifyRead : NoWrite verifyRead :=
   NoWrite.tryCatch (NoWrite.bind (NoWrite.fread _) fun _ => NoWrite.pure _) fun _ => NoWrite.raise _
@@ -166,11 +166,13 @@ theorem raises_locateTagM : Raises SaveErrC locateTagM := by
       · exact Raises.raise _ sMut
       · split
         · exact Raises.raise _ sMut
-        · apply Raises.bind ((Raises.fseek _).weaken fun _ _ => sInj); intro _
-          apply Raises.bind (raises_fixBrokenM _ _); intro start
-          apply Raises.bind ((Raises.fseek _).weaken fun _ _ => sInj); intro _
-          apply Raises.bind ((raises_freadInt _).weaken fun _ _ => sInj); intro _
-          exact Raises.pure _ _
+        · split
+          · exact Raises.raise _ sMut
+          · apply Raises.bind ((Raises.fseek _).weaken fun _ _ => sInj); intro _
+            apply Raises.bind (raises_fixBrokenM _ _); intro start
+            apply Raises.bind ((Raises.fseek _).weaken fun _ _ => sInj); intro _
+            apply Raises.bind ((Raises.fread _).weaken fun _ _ => sInj); intro _
+            exact Raises.pure _ _
   · apply Raises.bind ((Raises.fseek _).weaken fun _ _ => sInj); intro _
     apply Raises.bind ((Raises.fread _).weaken fun _ _ => sInj); intro d
     split
@@ -181,10 +183,12 @@ theorem raises_locateTagM : Raises SaveErrC locateTagM := by
       · exact Raises.raise _ sMut
       · apply Raises.bind ((Raises.fseek _).weaken fun _ _ => sInj); intro _
         apply Raises.bind raises_readIsApe; intro hasFooter
-        apply Raises.bind ((Raises.fseek _).weaken fun _ _ => sInj); intro _
-        apply Raises.bind ((Raises.fseek _).weaken fun _ _ => sInj); intro _
-        apply Raises.bind ((raises_freadInt _).weaken fun _ _ => sInj); intro _
-        exact Raises.pure _ _
+        split
+        · exact Raises.raise _ sMut
+        · apply Raises.bind ((Raises.fseek _).weaken fun _ _ => sInj); intro _
+          apply Raises.bind ((Raises.fseek _).weaken fun _ _ => sInj); intro _
+          apply Raises.bind ((Raises.fread _).weaken fun _ _ => sInj); intro _
+          exact Raises.pure _ _
 
 theorem raises_verifyRead : Raises SaveErrC verifyRead := by
   unfold verifyRead
